@@ -88,6 +88,24 @@ def check_exponential(ctx, base, mx, max_attempts):
                           {"base": base, "max": mx, "i": i, "value": x})
             break
         ctx.count("band_checks")
+    # one policy object serves every reconnector of a cluster: a schedule taken after another one was consumed (possibly far past the
+    # float overflow of base * 2 ** i) starts from the base again
+    second = list(itertools.islice(iter(pol.new_schedule()), 6))
+    want2 = 6 if max_attempts is None else min(6, max_attempts)
+    if len(second) != want2:
+        ctx.violation("later-schedule-of-the-same-policy-has-wrong-length", "second schedule of one policy object yielded %d items, expected %d" % (
+            len(second), want2), {"base": base, "max": mx, "max_attempts": max_attempts})
+    for i, x in enumerate(second):
+        c = min(fb * (2 ** i), fm)
+        lo = max(fb, c * Fraction(85, 100))
+        hi = min(fm, c * Fraction(115, 100))
+        tol = abs(c) * Fraction(1, 10 ** 12)
+        ctx.count("band_checks_on_a_later_schedule_of_the_same_policy")
+        if not (lo - tol <= _frac(x) <= hi + tol):
+            ctx.violation("later-schedule-of-the-same-policy-off-the-curve", "second schedule of one policy object (first one consumed for %d items): "
+                          "item %d = %r outside [%s, %s] (base=%r max=%r)" % (len(items), i, x, float(lo), float(hi), base, mx),
+                          {"base": base, "max": mx, "i": i, "value": x, "first_schedule_items_consumed": len(items)})
+            break
     return len(items)
 
 
